@@ -33,6 +33,10 @@ ElemChk(clause, g, c, Y, tol) ==
 MatChk(clause, X, Y, tol) == Chk(clause, RelOkM(X, Y, tol), RelErrM(X, Y), tol)
 VecChk(clause, x, y, tol) == Chk(clause, RelOkV(x, y, tol), RelErrV(x, y), tol)
 JacChk(clause, X, Y, tol) == Chk(clause, ToMaxOkM(X, Y, tol), ToMaxErrM(X, Y), tol)
+\* element against an expected matrix, relative to an explicit scale
+ScaledChk(clause, g, c, Y, tol, scale) ==
+  LET X == GMat(g, c)  d == MaxAbsDiff(X, Y)
+  IN Chk(clause, RLeq(d, RMul(tol, scale)), RDiv(d, scale), tol)
 
 ---------------------------------------------------------------------------
 \* domain of the properties, re-derived from the logged operands
@@ -88,12 +92,18 @@ TInverse(e) ==
   LET g == e.g  a == V(e.a)  z == V(e.out)
   IN ElemChk("C01.inverse", g, z, XInverse(g, a), TolC01(e.sc))
 TAssoc(e) ==
-  LET g == e.g
-      Y == MMul(MMul(GMat(g, V(e.a)), GMat(g, V(e.b))), GMat(g, V(e.c)))
-  IN ElemChk("C01.assoc", g, V(e.out), Y, TolC01(e.sc)) \o ElemChk("C01.assoc", g, V(e.out2), Y, TolC01(e.sc))
+  LET g == e.g  A == GMat(g, V(e.a))  B == GMat(g, V(e.b))  C == GMat(g, V(e.c))
+      AB == MMul(A, B)  BC == MMul(B, C)
+      Y == MMul(AB, C)
+      \* relative to the largest intermediate (a product that cancels cannot be more accurate than its factors)
+      sc == RMax(R1, RMax(MaxAbs(Y), RMax(MaxAbs(AB), MaxAbs(BC))))
+  IN ScaledChk("C01.assoc", g, V(e.out), Y, TolC01(e.sc), sc) \o ScaledChk("C01.assoc", g, V(e.out2), Y, TolC01(e.sc), sc)
+\* g^-1 g = I = g g^-1: the accuracy is relative to the magnitude of the factors (an inverse with entries
+\* of size 1e6 rounded to the scalar type cannot cancel to better than 1e6 * tol)
 TUnits(e) ==
   LET g == e.g  Ma == GMat(g, V(e.a))  I == MId(Dim(g))  t == TolC01(e.sc)
-  IN ElemChk("C01.inverse.left", g, V(e.li), I, t) \o ElemChk("C01.inverse.right", g, V(e.ri), I, t)
+      sc == RMax(R1, RMax(MaxAbs(Ma), MaxAbs(XInverse(g, V(e.a)))))
+  IN ScaledChk("C01.inverse.left", g, V(e.li), I, t, sc) \o ScaledChk("C01.inverse.right", g, V(e.ri), I, t, sc)
      \o ElemChk("C01.identity.left", g, V(e.le), Ma, t) \o ElemChk("C01.identity.right", g, V(e.re), Ma, t)
 TIdentity(e) ==
   LET g == e.g  X == GMat(g, V(e.out))
@@ -144,6 +154,8 @@ TAdExp(e) == MatChk("C03.hom.exp", M(e.out), ExpM(M(e.ad)), TolC02(e.sc, FALSE))
 
 \* C04: one event carries all first-order exp-Jacobians of one tangent vector
 FinOpt(e, f) == f \notin DOMAIN e \/ FinM(e[f])
+\* the inverse Jacobians / Hessians are required for rotation norms up to pi - 1e-3 (every rotating part)
+InvDomain(g, a) == RLeq(MaxTheta2(g, a), RSq(RSub(PiLo, Dec(1, -3))))
 TC04(e) ==
   LET g == e.g  a == V(e.a)  t == TolC04(e.sc)
       J == XDrExp(g, a)                                   \* sum_k (-1)^k ad^k/(k+1)!
@@ -152,7 +164,7 @@ TC04(e) ==
       Jli == MInvD(Jl)
   IN JacChk("C04.dr_exp", M(e.dr_exp), J, t)
      \o JacChk("C04.dl", M(e.dl_exp), Jl, t)
-     \o (IF e.inv = 1
+     \o (IF e.inv = 1 /\ InvDomain(g, a)
          THEN JacChk("C04.dr_expinv", M(e.dr_expinv), Ji, t)
               \o JacChk("C04.dl.inv", M(e.dl_expinv), Jli, t)
               \o JacChk("C04.rminus", M(e.dr_rminus), Ji, t)
@@ -189,7 +201,7 @@ TC05(e) ==
                     RDot(a, [i \in 1..n |-> Hrm[j][(i - 1) * n + k]]))]])
   IN JacChk("C05.d2r_exp", M(e.d2r_exp), StackHess(n, dJ), t)
      \o JacChk("C05.d2l_exp", M(e.d2l_exp), StackHess(n, dJl), t)
-     \o (IF e.inv = 1
+     \o (IF e.inv = 1 /\ InvDomain(g, a)
          THEN JacChk("C05.d2r_expinv", M(e.d2r_expinv), Hi, t)
               \o JacChk("C05.d2l_expinv", M(e.d2l_expinv), StackHess(n, dJli), t)
               \o JacChk("C05.rminus", M(e.d2r_rminus), Hrm, t)
